@@ -109,3 +109,9 @@ claim("C15",
       "Reads the EnergyTarget attributes 'Area target', 'Units target', 'Capital cost target', 'Annualised capital cost target' as the property states. The exchanger-count target is only required to be positive (no independent definition is given in the property).",
       "bounded-exhaustive input x configuration enumeration against an independent closed-form reference",
       "DESIGN.md section 4 C15")
+
+claim("C16",
+      "(a) Every enumerated problem (lattice multisets of <=2 streams x 2 zone namings with printable names x {no utilities, isothermal pair, 'Both' level}) through 10 channels - service on dict / validated model / value-with-unit dict / re-read JSON, PinchProblem with model, JSON file, JSON via the constructor, CSV directory, CSV pair, XLSX workbook with the template sheets (files written by the harness) - all results equal modulo the project name. (b) H-mode: every sequence of <=4 (quick) / <=5 (thorough) PinchProblem calls from {load a, load b, target, export}: results are those of the currently loaded problem and the service (counted through a harness-side wrapper) is called exactly when no cached result exists. (c) _unique_sheet_name on every sequence of <=3/4 names from a 12-name tricky alphabet and real exported workbooks for all 45 pairs of 9 tricky zone names read back with openpyxl: unique (as Excel compares, i.e. case-insensitively, and exactly), 1..31 characters, none of : \\ / ? * [ ].",
+      "Names the readers rewrite by design (digits-only, dots) are outside the alphabet. The project (root zone) name is derived from the file name by the wrapper and is normalised before comparison.",
+      "bounded-exhaustive channel x input enumeration (differential) + explicit-state search over wrapper call histories + exhaustive name-sequence enumeration",
+      "DESIGN.md section 4 C16")
